@@ -196,9 +196,10 @@ func emit(w *bufio.Writer, lines []string) {
 }
 
 var profiles = map[string]Profile{
-	"default": defaultProfile,
-	"plain":   plainProfile,
-	"memo":    memoProfile,
-	"reorder": reorderProfile,
-	"cluster": clusterProfile,
+	"default":      defaultProfile,
+	"plain":        plainProfile,
+	"memo":         memoProfile,
+	"reorder":      reorderProfile,
+	"reorderplain": reorderPlainProfile,
+	"cluster":      clusterProfile,
 }
